@@ -21,7 +21,7 @@ TABLE = {
     "C02": (BOOK_TECH + "; ViewsO recomputation from the logged order table at every event" + IND_TECH,
             "Views computed from the queue equal views recomputed from the order table alone on every model state (TLC); every generated history's views compared with the real getters (ticks 1-2, levels 1-3, crossed books, reloads); on random traces TLC recomputes every view from the logged get_orders() at every event (ticks 1..10, levels 1..24); high-price regime (prices just below 2^32) and limit price 0; cross-feature stages (equal timestamps, requests before placement); Apalache: queues = active orders, sorted, never crossed while trading was never off, is inductive for <= 3 (thorough: 4) orders over all integers.",
             "6 C02"),
-    "C03": (BOOK_TECH + "; ledger clauses (append-only, well-formed, conservation against submitted volumes, counter) evaluated per event",
+    "C03": (BOOK_TECH + "; ledger clauses (append-only, well-formed, conservation against submitted volumes, counter) evaluated per event; the same through environments (outcome sets of steps with partial fills and modifications of one order, EnvTrace.tla)",
             "Ledger clauses as TLC invariants/action properties on the model; trade log and counter are part of the compared projection of every generated history; on recorded traces TLC audits append-only, admission, conservation (against the volumes the harness submitted) and the counter.",
             "6 C03"),
     "C04": (BOOK_TECH + "; every request against every order in every status, no-op clause as full-projection equality",
@@ -36,8 +36,8 @@ TABLE = {
     "C07": (BOOK_TECH + "; reload modelled as identity, original and reloaded copies both driven on; truncation sweep",
             "Reload (string/file x compact/pretty) at every position of every bounded history with every continuation, original and up to three reloaded copies all compared with the specification after every later call; every strict prefix of sampled snapshots must be rejected with an error; random traces continue on the reloaded book.",
             "6 C07"),
-    "C12": (BOOK_TECH + "; on/off-grid creations and modifications",
-            "Grid clauses as TLC invariants; generator alphabets with on- and off-grid prices for both creation calls and for modify (ticks 2, 3); random traces with arbitrary prices, ticks 2..10. Off-grid modify is a recorded known finding (F3).",
+    "C12": (BOOK_TECH + "; on/off-grid creations and modifications; known finding F3 as a named deviation of the specification (FollowF3): TLC flags the states that break C12_OnGrid, everything else on such histories is still compared",
+            "Grid clauses as TLC invariants; generator alphabets with on- and off-grid prices for both creation calls and for modify (ticks 2, 3); random traces with arbitrary prices, ticks 2..10. Off-grid modify is a recorded known finding (F3): the stages that submit such requests run the specification with FollowF3 = TRUE, so that those histories are validated to their end and only the states TLC itself flags are attributed to the finding.",
             "6 C12"),
     "C13": (BOOK_TECH + "; trading toggles at every position",
             "C13 clauses as TLC action properties; toggles at every position of bounded histories (crossing placements/modifications while disabled, aggressors after re-enabling, rejected market orders), books starting disabled; random traces with frequent toggles.",
@@ -54,13 +54,13 @@ TABLE = {
     "C14": ("TLA+ spec (MarketOps.tla: asset -> BookOps record, shared clock) with TLC-generated histories replayed into Market<2>/Market<3> (MarketGen.tla) and outcome sets for MarketEnv (EnvGen.tla)",
             "The specification is literally 'independent books sharing one clock'; every bounded history of direct operations over 2-3 assets with per-asset ticks (same local ids on several assets, per-asset and all-asset queries, reloads) is replayed into the real Market and compared asset by asset; independence as TLC action property; shuffled cross-asset batches through MarketEnv outcome sets.",
             "6 C14"),
-    "C16": ("TLA+ relations (Agents.tla, Big.tla) between an agent's observation and the instructions it queued; every update call of seeded runs recorded from the real agents is validated by TLC (AgentTrace.tla); aborts caught by the recorder; SimTrace.tla validates the same relations inside complete simulations with the observation derived by TLC from the specification state",
+    "C16": ("TLA+ relations (Agents.tla, Big.tla) between an agent's observation and the instructions it queued; every update call of seeded runs recorded from the real agents is validated by TLC (AgentTrace.tla); the public helper functions of agents::common driven directly with mid-prices and sampled distances of the harness's choosing and validated by TLC (HelperTrace.tla); aborts caught by the recorder; SimTrace.tla validates the same relations inside complete simulations with the observation derived by TLC from the specification state",
             "The agents are specified as relations: which instruction sequences are possible given what the agent could observe (own active orders, twice the mid-price, parameters), what is forbidden at probability 0 and mandatory at probability >= 1. Every update call of seeded runs over the parameter matrix (kind x single/multi asset x tick 1..10 x probabilities {0, 0.3, 1, 1.5} x sigma {1, 10} x starting book, plus scripted boundary draws 0 / all-ones) is validated by TLC; prices up to 2^32 handled as digit pairs. A panic anywhere is a violation. Momentum agents at saturated demand with order ratios 0, 1/2, 1, 2. Sim.tla: TLC checks on every reachable state of the runner loop over random agents that no agent holds two live orders and that orders are as configured, and every outcome of real simulations (tens of thousands of seeds, single- and multi-asset, rates 0 / mid / >= 1) must be one of the outcomes TLC enumerated. Interior probabilities are not measured.",
             "6 C16"),
     "C17": ("TLA+ relation MomentumRel with the momentum signal recomputed exactly by TLC (dyadic integers) from the observed mid-prices; harness-imposed price paths at saturated demand; mirrored run pairs validated by TLC",
             "At saturated demand the documented rule is deterministic: TLC recomputes M from the logged mid-price sequence (decay 1 and 1/2 exactly) and requires buys for M > 0, sells for M < 0, nothing for M = 0, one market order (and one limit order when the ratio is >= 1) per trader; each run is repeated on the reflected price path with the same seed and TLC requires the reflected order flow (sides swapped, same sizes, same steps; limit prices are not compared - they are clamped to the price range, which is not symmetric about the level). Price distributions sigma 1 and 10, order ratios 0, 1/2, 1, 2 (a limit order is certain when ratio x market-order probability >= 1).",
             "6 C17"),
-    "C09": ("TLC (SimEq.tla) compares complete simulation outputs of repeated runs in separate OS processes (same seed twice, progress bar on, seeds + 1 and + 2^32, boundary seeds 0/1/2^64-1) line by line; runs go through the public runners with derive-macro agent sets; SimTrace.tla validates complete simulations recorded from inside the runners",
+    "C09": ("TLC (SimEq.tla) compares complete simulation outputs of repeated runs in separate OS processes (same seed twice, progress bar on, seeds + 1 and + 2^32, boundary seeds 0/1/2^64-1) line by line; runs go through the public runners with derive-macro agent sets declared twice (two independent expansions, compared under the same seed), always-active populations with constant batch sizes; SimTrace.tla validates complete simulations recorded from inside the runners",
             "For a seeded matrix of configurations (seeds x step counts x step sizes x tick sizes x six agent compositions incl. nested derived sets, single- and multi-asset) the simulation binary is run as five separate OS processes; TLC requires outputs A = B = C (orders, trades, recorded level-2 history, per-step volume) and D (every seed + 1), E (every seed + 2^32) different from A for every substantial run; the seed list contains 0, 1, 2^32-1, 2^63 and 2^64-1. That the runs are behaviours of the specification at all is decided by SimTrace.tla: complete simulations recorded from inside the real runners (recording agent set, both progress-bar branches) are validated event by event - loop structure of Sim, every step, every submission, every member's instructions. Configurations include heavy-tailed price distributions (sigma 10), populations of thousands of agents (more than 1024 instructions per step over both assets) and environments that already have a history when the runner is called. A nondeterminism source stable across these repetitions is not seen.",
             "6 C09"),
     "C15": ("TLC (Shuffle.tla): Fisher-Yates bijection by enumeration for n <= 6; exact Bernstein + union-bound predicate evaluated by TLC on histograms recorded from >= 2.16*10^5 seeded real steps per batch size (every size 2..64; parity of the permutation; every digit of three bijective codes of the permutation; schedules drawn through the public runners from small consecutive seeds); generator-state-only determinism clauses (other instructions, instructions referring to orders created in the same step, environments with a history of earlier steps)",
